@@ -46,12 +46,15 @@ COMPONENTS = {
 EXPECTED_PROBES = ["op_set_geometry", "op_concat", "op_pickle", "op_cx", "op_colsubset_without_active",
                    "op_colsubset_no_geometry", "dask_from_pandas", "dask_set_geometry", "dask_compute",
                    "dask_parquet_geometry_kw", "dask_persist", "per_partition_active_checked",
-                   "use_sjoin", "use_hilbert"]
+                   "use_sjoin", "use_hilbert", "earlier_frame_rechecked",
+                   "earlier_dask_frame_rechecked", "dask_parquet_geometry_and_bounds_kw",
+                   "inactive_column_named_geometry", "dask_concat", "dask_repartition", "dask_filter"]
 
 PANDAS_OPS = ("set_geometry", "iloc", "mask", "query", "head", "take", "sample", "sort_values",
               "copy", "colsubset", "colsubset_other", "colsubset_nogeo", "cx", "pickle", "concat",
               "assign", "rename")
-DASK_OPS = ("d_from_pandas", "d_set_geometry", "d_persist", "d_compute", "d_parquet")
+DASK_OPS = ("d_from_pandas", "d_set_geometry", "d_persist", "d_compute", "d_parquet", "d_concat",
+            "d_repartition", "d_filter")
 
 
 def cases(tier, base_seed):
@@ -67,7 +70,9 @@ def cases(tier, base_seed):
         spec = gen.gen_frame_spec(rng, n, kinds=kinds, index_kind=rng.choice(
             ("default", "named", "nonunique")), p_missing=0.1, p_empty=0.05)
         geo_in_order = [c for c in spec["order"] if c in {x["name"] for x in spec["cols"]}]
-        spec["active"] = rng.choice(geo_in_order[1:])        # never the first geometry column
+        cand = [c for c in geo_in_order[1:] if c != "geometry"] or \
+            [c for c in geo_in_order if c != "geometry"]
+        spec["active"] = rng.choice(cand)   # never the first geometry column, never 'geometry'
         steps = []
         for _ in range(rng.randint(3, 15 if tier != "quick" else 10)):
             op = rng.choice(PANDAS_OPS + DASK_OPS)
@@ -202,10 +207,21 @@ def _drive(case, root, fs, probes, sig, done):
     spec = case["frame"]
     df = gen.build_frame(spec)
     active = spec["active"]
+    if any(c["name"] == "geometry" for c in spec["cols"]):
+        probes["inactive_column_named_geometry"] = 1
+        sig["has_column_named_geometry"] = True
     _check_frame(df, active, "construction", sig, case, probes)
     ddf = None
     dactive = None
+    earlier = []        # (pandas frame, active) and (dask frame, active) seen before: later
+    dearlier = []       # operations on derived frames must not change them
     for st in case["steps"]:
+        if isinstance(df, GeoDataFrame) and active in _geo_cols(df):
+            earlier.append((df, active))
+            del earlier[:-3]
+        if ddf is not None:
+            dearlier.append((ddf, dactive))
+            del dearlier[:-3]
         op = st["op"]
         sig["op"] = op
         n = len(df)
@@ -226,6 +242,20 @@ def _drive(case, root, fs, probes, sig, done):
                 ddf = _guard("Dask set_geometry", lambda: ddf.set_geometry(col), sig)
                 dactive = col
                 probes["dask_set_geometry"] = 1
+            elif op == "d_concat":
+                import dask.dataframe as dd
+                ddf = _guard("dd.concat", lambda: dd.concat([ddf, ddf]), sig)
+                probes["dask_concat"] = 1
+            elif op == "d_repartition":
+                if not (1 <= st["k"] < ddf.npartitions):
+                    continue        # only to fewer partitions (Dask asserts otherwise)
+                ddf = _guard("repartition", lambda: ddf.repartition(npartitions=st["k"]), sig)
+                probes["dask_repartition"] = 1
+            elif op == "d_filter":
+                if "v" not in ddf.columns:
+                    continue
+                ddf = _guard("Dask row filter", lambda: ddf[ddf["v"] % (st["k"] + 1) != 0], sig)
+                probes["dask_filter"] = 1
             elif op == "d_persist":
                 ddf = _guard("persist", lambda: ddf.persist(), sig)
                 probes["dask_persist"] = 1
@@ -242,8 +272,31 @@ def _drive(case, root, fs, probes, sig, done):
                              lambda: read_parquet_dask(path, filesystem=fs, geometry=col), sig)
                 dactive = col
                 probes["dask_parquet_geometry_kw"] = 1
+                if st["bits"] & 1:
+                    # pruning must use the requested column's stored extents
+                    b = st["box"]
+                    probes["dask_parquet_geometry_and_bounds_kw"] = 1
+                    full = _guard("compute", lambda: ddf.compute(), sig)
+                    pr = _guard("read_parquet_dask(geometry=, bounds=)",
+                                lambda: read_parquet_dask(path, filesystem=fs, geometry=col,
+                                                          bounds=tuple(b)), sig)
+                    got = _guard("pruned.cx", lambda: pr.cx[b[0]:b[2], b[1]:b[3]].compute(), sig)
+                    single = GeoDataFrame({col: full[col].array.copy()}, index=full.index)
+                    want = single.cx[b[0]:b[2], b[1]:b[3]]
+                    a = sorted(map(str, (models.freeze(v) for v in models.array_values(got[col].array))))
+                    w = sorted(map(str, (models.freeze(v) for v in models.array_values(want[col].array))))
+                    if a != w:
+                        raise Bad("dask-use-pruning@d_parquet",
+                                  f"read_parquet_dask(geometry={col!r}, bounds={b}).cx selects "
+                                  f"{len(a)} rows, the rows of {col!r} intersecting the box are {len(w)}")
             done.append((op, dactive))
             _check_dask(ddf, dactive, op, sig, probes, st)
+            if dearlier:
+                old, oact = dearlier[st["bits"] % len(dearlier)]
+                if old is not ddf:
+                    probes["earlier_dask_frame_rechecked"] = 1
+                    _check_dask(old, oact, f"{op} (earlier frame re-checked)", sig, probes, st,
+                                light=True)
             continue
         # -------------------------------------------------------------- pandas half
         if not isinstance(df, GeoDataFrame):
@@ -321,6 +374,12 @@ def _drive(case, root, fs, probes, sig, done):
             df = _guard("rename", lambda: df.rename(columns={"s": "s2"}), sig)
         done.append((op, active))
         probes[f"op_{op}"] = 1
+        if earlier:
+            old, oact = earlier[st["bits"] % len(earlier)]
+            if old is not df:
+                probes["earlier_frame_rechecked"] = 1
+                _check_frame(old, oact, f"{op} (earlier frame re-checked)", sig, case, probes,
+                             use=False)
         if isinstance(df, pd.DataFrame):
             _check_frame(df, active, op, sig, case, probes,
                          use=op not in ("colsubset_other", "colsubset_nogeo"))
@@ -333,7 +392,7 @@ def _drive(case, root, fs, probes, sig, done):
                     active = spec["active"]
 
 
-def _check_dask(ddf, dactive, op, sig, probes, st):
+def _check_dask(ddf, dactive, op, sig, probes, st, light=False):
     """The collection and *every partition* agree on the active geometry, and use it."""
     from spatialpandas.dask import DaskGeoDataFrame
     if not isinstance(ddf, DaskGeoDataFrame):
@@ -355,6 +414,16 @@ def _check_dask(ddf, dactive, op, sig, probes, st):
     if any(x != dactive for x in names):
         raise Bad(f"dask-partition-active@{op}", f"{op}: active geometry inside the partitions is "
                   f"{names}, the collection says {dactive!r}")
+    if light:
+        whole = _guard(f"compute after {op}", lambda: ddf.compute(), sig)
+        try:
+            nm = whole.geometry.name
+        except Exception as e:  # noqa: BLE001
+            nm = f"<{type(e).__name__}>"
+        if nm != dactive:
+            raise Bad(f"dask-compute-active@{op}", f"{op}: compute() gives active geometry {nm!r}, "
+                      f"expected {dactive!r}")
+        return
     # use: partition_bounds / hilbert packing follow the active column
     pb = _guard(f"partition_bounds after {op}", lambda: ddf.partition_sindex and
                 ddf._partition_bounds[dactive], sig)
